@@ -198,3 +198,118 @@ def run_ndarray(prog, rep):
         rule.check(not bad, 'NDArray::%s|bounds' % nm, rep.where(fs[0]), 'nix::NDArray::' + nm, '%d instantiation(s): memcpy is dominated by an index-vs-store-size guard' % len(fs),
                    'unchecked memcpy at dstore.data() + sizeof(T) * index')
     return rule
+
+
+def run_vecinit(prog, rep):
+    """a local vector that is filled only under a condition is subscripted only where that condition (or a size test) holds"""
+    sem = Sem(prog)
+    rule = rep.rule('R-VECFILL', 'a local container filled only under a condition is not subscripted where that condition may be false', floor=1)
+    n = 0
+    for f in sorted(prog.funcs.values(), key=lambda f: (f.file, f.line)):
+        if f.body is None or not (f.q.startswith('nix::') or '/repo/' in (f.file or '')) or f.q.startswith('nix::hdf5::h5x'):
+            continue
+        lv = sem.local_vars(f)
+        mods = sem.mods(f)
+        for lid, v in lv.items():
+            ty = v.get('ctype') or v.get('type') or ''
+            if not re.match(r'^(const )?std::vector<', ty) or (v.c and v.c[0] is not None and _has_elems(v.c[0])):
+                continue
+            subs = [c for c in f.walk() if c.k == 'call' and c.get('op') == '[]' and c.c and unwrap(c.c[0]).k == 'ref' and unwrap(c.c[0]).decl.get('lid') == lid
+                    and not _is_store_target(c)]
+            if not subs:
+                continue
+            fills = [m for m in mods.get(lid, []) if m.id > v.id]
+            if not fills:
+                continue
+            cond_fills = []
+            uncond = False
+            for m in fills:
+                ifs = [a for a in m.ancestors() if a.k == 'if']
+                loops = [a for a in m.ancestors() if a.k in ('for', 'while', 'rangefor', 'do')]
+                if not ifs and not loops:
+                    uncond = True
+                cond_fills.append((m, ifs))
+            if uncond:
+                continue
+            # every fill is conditional (or in a loop)
+            if any(not ifs for m, ifs in cond_fills):
+                continue   # filled in a loop without condition: element count follows the loop, other rules (R-IDX) apply
+            n += 1
+            key = '%s|%s' % (re.sub(r'<.*', '', f.q) + _sigkey2(f), v.get('name'))
+            probs = []
+            for s in subs:
+                facts = sem.facts_at(f, s.id)
+                sized = any(isinstance(t, tuple) and (('v', lid, v.get('name')) in _flat(t)) and t[0] in ('b', 'm') for (t, pol) in facts)
+                if sized:
+                    continue
+                for m, ifs in cond_fills:
+                    i = ifs[0]
+                    if any(a is i for a in s.ancestors()) and any(x is s for x in (i.c[3].walk() if i.c[3] is not None else [])):
+                        break   # the subscript sits in the same guarded branch
+                    ct = term(unwrap(i.c[2]))
+                    folded = _fold_fresh(sem, f, lv, mods, ct, i.c[2])
+                    if folded is True:
+                        break
+                    if any(t == ct and pol for (t, pol) in facts):
+                        break
+                    # the subscript sits under a loop/if with the very same condition as the fill (the operands only move towards the bound in between)
+                    same = False
+                    for a in s.ancestors():
+                        cn = a.c[2] if a.k == 'if' else (a.c[0] if a.k == 'while' else (a.c[1] if a.k == 'for' else None))
+                        if cn is not None and term(unwrap(cn)) == ct and a.id > i.id:
+                            same = True
+                    if same:
+                        break
+                else:
+                    i = cond_fills[0][1][0]
+                    probs.append('%s is filled only if (%s) (line %s) but %s is read at line %s where that condition may be false and no size test protects it: out-of-bounds read on an empty vector' % (
+                        v.get('name'), i.c[2].src(50), i.get('line') or i.l, s.src(30), s.l))
+            rule.check(not probs, key, rep.where(v), f.label(), '%s: every subscript is under its fill condition, a size test, or the fill condition holds by construction' % v.get('name'), '; '.join(sorted(set(probs))[:2]))
+    if n < 1:
+        raise AnalysisBroken('R-VECFILL: no conditionally filled local vector found (anchor: max_extents in getOffsetAndCount)')
+    return rule
+
+
+def _sigkey2(f):
+    return '(' + ','.join(p['type'].replace('const ', '').replace('nix::', '').replace(' &', '').replace('std::', '') for p in f.params)[:60] + ')'
+
+
+def _has_elems(init):
+    t = term(unwrap(init))
+    return not (isinstance(t, tuple) and t[0] == 'new' and len(t) == 2)
+
+
+def _is_store_target(c):
+    p = c.p
+    while p is not None and p.k in ('paren', 'cast', 'temp', 'bind'):
+        p = p.p
+    return p is not None and (p.k == 'assign' or (p.k == 'call' and p.get('op') in ('=', '+=', '-='))) and p.c and any(x is c for x in unwrap(p.c[0]).walk())
+
+
+def _flat(t):
+    out = []
+
+    def w(x):
+        if isinstance(x, tuple):
+            out.append(x)
+            for y in x:
+                w(y)
+    w(t)
+    return out
+
+
+def _fold_fresh(sem, f, lv, mods, ct, node):
+    """condition of the form  X.size() < E  /  X.empty()  where X is a default-constructed local that nothing has touched yet:
+    size() is 0 there, so the condition holds whenever E > 0 (E is the rank the subscripting loop is bounded by)"""
+    def fresh(t):
+        if not (isinstance(t, tuple) and t[0] == 'v'):
+            return False
+        v = lv.get(t[1])
+        if v is None or (v.c and v.c[0] is not None and _has_elems(v.c[0])):
+            return False
+        return not any(m.id < node.id for m in mods.get(t[1], []) if m.id > v.id)
+    if isinstance(ct, tuple) and ct[0] == 'b' and ct[1] == '<' and isinstance(ct[2], tuple) and ct[2][:2] == ('m', 'size') and fresh(ct[2][2]):
+        return True
+    if isinstance(ct, tuple) and ct[:2] == ('m', 'empty') and fresh(ct[2]):
+        return True
+    return None
